@@ -246,13 +246,27 @@ def conclude(pid, P, tier, seed, a, t0, src, results, oor, stats, functions, ext
         """-> (confirmed, detail) using the function's native oracle"""
         nonlocal C
         o = ORACLES.get(r.qual)
-        if o is None:
-            return None, 'no native oracle for %s' % r.qual
         if C is None:
             try:
                 C = replay.import_repo()
             except Exception as e:  # the tree under verification does not even import
                 return True, {'input': 'import construct', 'observed': 'importing the package raises %s: %s' % (type(e).__name__, e), 'source': 'import'}
+        if o is None:
+            # no hand-written reference: evaluate the function's own contract natively on the real code (stub sub-constructs
+            # taken from the real library), searching for an input on which a clause is false
+            from contracts import nativecheck
+            c = contract.REGISTRY.get(r.qual)
+            if r.stream_model.endswith('generic'):
+                c = contract.GENERIC.get(r.qual, c)
+            if c is None or c.setup is None or not r.stream_model.startswith('bytesio'):
+                return None, 'no native oracle for %s under the %s model' % (r.qual, r.stream_model)
+            try:
+                found, stats = nativecheck.search(c, src, C, rng, 400 if tier == 'quick' else 5000)
+            except Exception as e:
+                return None, 'native contract evaluation failed: %r' % (e,)
+            if found:
+                return True, {'input': found, 'observed': 'contract clause false on the real code', 'source': 'native contract evaluation after failed obligation'}
+            return False, 'native contract evaluation agreed with the real code on %s' % (stats,)
         tried = 0
         if vals is not None:
             args = o.from_model(vals)
